@@ -53,16 +53,23 @@ def gen_reread(rng, t, n):
 class C02(Prop):
   id = 'C02'
   lean_module = 'DK.Props.C02'
+  uses_t1 = True      # T1s regenerates DK/Gen/Sets/*.lean from the current source before the bridge is audited
+  bridge_sets = ['DK.BridgeSets.DeviceSet_shapes', 'DK.BridgeSets.DeviceSet_shape', 'DK.BridgeSets.DeviceSet_partition',
+                 'DK.BridgeSets.DeviceSet_slices', 'DK.BridgeSets.DeviceSet_costv', 'DK.BridgeSets.DeviceSet_cost',
+                 'DK.BridgeSets.DeviceSet_deriv', 'DK.BridgeSets.DeviceSet_hess', 'DK.BridgeSets.DeviceSet_bounds',
+                 'DK.BridgeSets.DeviceSet_project', 'DK.BridgeSets.DeviceSet_constraints', 'DK.BridgeSets.DeviceSet_constraints_node']      # T1s: set-level glue (vk/translate_sets.py, DK/Lemmas/BridgeSets/*.lean)
+  bridge = bridge_sets
   theorems = {'DK.Props.C02': ['DK.C02.' + t for t in THEOREMS],
               'DK.Props.TreeGrad': ['DK.TreeGrad.tree_isMGrad', 'DK.TreeGrad.tree_partial', 'DK.TreeGrad.ofLeaf_isGrad', 'DK.TreeGrad.ofMF_isGrad', 'DK.TreeGrad.shipped_tree_isMGrad']}
   rule = ('random rooted ordered trees of DeviceSet / SubBalancedDeviceSet nodes (depth <= 3 quick / 4 thorough, fan-out <= 3) over '
           'modelled leaves of every class, MFDeviceSet / TwoRatioMFDeviceSet adaptors as children, horizon 1..6 (..10 thorough); '
           'in-bounds flows given flat and matrix-shaped; prices scalar / per-slot vector / full matrix with pairwise different rows; '
           'non-trivial: depth >= 2 and some node whose children have different row counts')
-  sizes = {'quick': 400, 'thorough': 4000}
+  sizes = {'quick': 400, 'thorough': 3000}
   assumptions = ['oracle: recomposition from the leaves\' own public API (cost, deriv, bounds, constraints) with offsets summed from the '
                  'leaves\' shapes; constraint lists compared as multisets (order of the list is not part of the property)',
                  'oracle: every tree constraint Jacobian is compared with central finite differences (h=1e-3) of its own fun along two directions at the permutation flow',
+                 'oracle, metamorphic: the same logical flow (C / Fortran / transpose-view / strided / flat / strided-flat / integer-typed) and price (python/numpy scalar, (n,), (1,n) row, strided, matrix layouts, integer-typed) must give the same cost, deriv, hess and constraint values; caller arrays unchanged',
                  'reread family (15 % of the cases, oracle only): the whole tree is read once, then leaves are re-parameterised through public setters (bounds / cbounds / a curve parameter; cbounds also on the device behind an adaptor), then the recomposition is repeated',
                  'T2 compares constraints as sorted projections (type/has-jac code, value), (code, jac.D), (code, value + jac.D) at the case flow']
 
@@ -78,7 +85,8 @@ class C02(Prop):
       t, n = X.gen_shape_tree(rng, tier)
       R = gen.tree_rows(t)
       case = {'tree': t, 'n': n, 'S': gen.tree_flow(rng, t, n), 'S0': gen.tree_flow(rng, t, n, 'mixed'),
-              'P': X.gen_prices(rng, R, n), 'D': X.gen_dir(rng, R, n)}
+              'P': X.gen_prices(rng, R, n), 'D': X.gen_dir(rng, R, n),
+              '_forms': {'S': rng.choice(X.MAT_FORMS), 'flat': rng.choice(['flat', 'flat-strided']), 'P': rng.choice(X.MAT_FORMS)}}
       if rng.random() < self.reread_rate:
         rr = gen_reread(rng, t, n)
         if rr:
@@ -111,14 +119,21 @@ class C02(Prop):
       Op({'op': 'tree.partition', 'tree': t, 'n': n}, lambda: dev.partition, 1e-9, 'partition'),
       Op({'op': 'tree.bounds', 'tree': t, 'n': n}, lambda: dev.bounds, 1e-9, 'bounds'),
     ]
+    fm = case.get('_forms', {'S': 'C', 'flat': 'flat', 'P': 'C'})
+    P0 = P
     for shp in ('mat', 'flat'):
-      S = X.shaped(case['S'], shp); S0 = X.shaped(case['S0'], shp); D = build.arr(case['D'])
+      lay = fm['S'] if shp == 'mat' else fm['flat']
+      S = X.relayout(build.arr(case['S']), lay); S0 = X.relayout(build.arr(case['S0']), lay); D = build.arr(case['D'])
+      # price forms: a per-slot vector as (n,) on one pass and as a (1, n) row on the other; a full matrix in the case's layout
+      pf_ = X.price_form(case['P'])
+      P = (X.relayout(P0, 'row') if shp == 'flat' else P0) if pf_ == 'vector' else (X.relayout(P0, fm['P']) if pf_ == 'matrix' and shp == 'mat' else P0)
+      shp = '%s flow, %s layout, price %s' % (shp, lay, getattr(P, 'shape', 'scalar'))
       ops += [
         Op({'op': 'tree.dcost', 'tree': t, 'n': n, 'S': case['S'], 'S0': case['S0'], 'P': case['P']},
-           lambda S=S, S0=S0: dev.cost(S, P) - dev.cost(S0, P), 1e-9, 'cost difference (%s flow)' % shp),
-        Op({'op': 'tree.deriv', 'tree': t, 'n': n, 'S': case['S'], 'P': case['P']}, lambda S=S: dev.deriv(S, P), 1e-9, 'deriv (%s flow)' % shp),
+           lambda S=S, S0=S0, P=P: dev.cost(S, P) - dev.cost(S0, P), 1e-9, 'cost difference (%s)' % shp),
+        Op({'op': 'tree.deriv', 'tree': t, 'n': n, 'S': case['S'], 'P': case['P']}, lambda S=S, P=P: dev.deriv(S, P), 1e-9, 'deriv (%s)' % shp),
         Op({'op': 'treex.cons', 'tree': t, 'n': n, 'S': case['S'], 'D': case['D']}, lambda S=S, D=D: X.enc_cons(dev.constraints, S, D), 1e-9,
-           'constraints: sorted (type, value), (type, jac.D), (type, value+jac.D) (%s flow)' % shp),
+           'constraints: sorted (type, value), (type, jac.D), (type, value+jac.D) (%s)' % shp),
       ]
     # every nested child standalone, on its own rows (context-free consequence); partition of nested nodes
     for sub, off in X.subnodes(t):
@@ -266,6 +281,40 @@ class C02(Prop):
             fail('leaf-alone', 'leaf %s alone on the vector S[%d] gives cost %.12g / deriv %s, inside the tree (1,n slice) %.12g / %s; flow %s'
                  % ('.'.join(path), off, a, da.tolist(), b, dexp[off].tolist(), sname), type(blk).__name__)
 
+    # ---- the same logical flow / price in another form (memory layout, (1,n) row, integer-typed, scalar kinds) => the same
+    # cost, marginal cost and Hessian; the caller's arrays are left as they were
+    sname, S, pname, P = probes[-1]
+    try:
+      ref = [float(dev.cost(S, P)), n_.array(dev.deriv(S, P), dtype=float).reshape(-1)]
+      try:
+        ref.append(n_.array(dev.hess(S, P), dtype=float))
+      except Exception:
+        ref.append(None)
+      fv_ = X.flow_variants(S)
+      rot = (7*R + 3*n + len(blocks)) % len(fv_)          # three of the flow forms per case (rotating), every price form
+      fv_ = [fv_[(rot + j) % len(fv_)] for j in range(3)]
+      variants = [('flow in %s' % nm, Sv, P) for nm, Sv in fv_] + [('price as %s' % nm, S, Pv) for nm, Pv in X.price_variants(P, R, n)]
+      for nm, Sv, Pv in variants:
+        keepS = n_.array(Sv, copy=True); keepP = n_.array(Pv, copy=True)
+        try:
+          got = [float(dev.cost(Sv, Pv)), n_.array(dev.deriv(Sv, Pv), dtype=float).reshape(-1)]
+          with_h = ref[2] is not None and (nm in ('price as (1, n) row', 'price as (R, n) matrix, T layout') or nm == 'flow in %s' % fv_[0][0])
+          got.append(n_.array(dev.hess(Sv, Pv), dtype=float) if with_h else None)
+        except Exception as e:
+          fail('input-form', 'cost/deriv/hess raised %s: %s with the %s (same logical input as %s, %s, which works)' % (type(e).__name__, str(e)[:120], nm, sname, pname))
+          break
+        sc = max(1.0, abs(ref[0]))
+        bad = [w for w, a, b in (('cost', got[0], ref[0]), ('deriv', got[1], ref[1]), ('hess', got[2], ref[2])) if a is not None and b is not None and not close(a, b, sc)]
+        if bad:
+          fail('input-form', '%s differ(s) with the %s: cost %.12g vs %.12g, deriv %s vs %s (same logical input: %s, %s)'
+               % ('/'.join(bad), nm, got[0], ref[0], got[1].round(9).tolist(), ref[1].round(9).tolist(), sname, pname))
+          break
+        if not ((n_.asarray(Sv) == keepS).all() and (n_.asarray(Pv) == keepP).all()):
+          fail('caller-buffer', 'cost/deriv/hess changed the caller\'s arrays (%s)' % nm)
+          break
+    except Exception as e:
+      fail('raises', 'cost/deriv raised %s: %s; flow %s, %s' % (type(e).__name__, str(e)[:120], sname, pname))
+
     # ---- bounds: concatenation in row-major order
     bexp = n_.concatenate([n_.array(blk.bounds, dtype=float).reshape(k*n, 2) for _, k, blk, _ in blocks])
     bgot = n_.array(dev.bounds, dtype=float)
@@ -309,6 +358,24 @@ class C02(Prop):
         T.append((c['type'], vf, None if jac is None else jac.reshape(R, n)))
     except Exception as e:
       fail('constraint-raises', 'evaluating the tree constraints raised %s: %s (flow: %s, integer-typed)' % (type(e).__name__, str(e)[:160], probes[0][0]))
+      return fails
+    # ---- the tree constraints do not depend on the memory layout of the flow they are given
+    try:
+      for nm, Sv in [[v for v in X.flow_variants(Sperm) if v[0].split()[0] in ('F', 'strided', 'flat-strided')][(R + n) % 3]]:
+        keep = Sv.copy()
+        for ti, c in enumerate(tcons):
+          v = scalar(c['fun'](Sv))
+          j = n_.array(c['jac'](Sv), dtype=float).reshape(R, n) if 'jac' in c else None
+          if not close(v, T[ti][1][0]) or (j is not None and not close(j, T[ti][2])):
+            fail('input-form', 'tree constraint #%d (%s): value %.12g / Jacobian %s on the flow given in %s, but %.12g / %s on the same flow as a C-ordered matrix (flow: %s)'
+                 % (ti, c['type'], v, None if j is None else j.tolist(), nm, T[ti][1][0], None if T[ti][2] is None else T[ti][2].tolist(), pname0))
+            break
+        if not (Sv == keep).all():
+          fail('caller-buffer', 'evaluating the tree constraints changed the caller\'s flow array (%s)' % nm)
+        if fails:
+          break
+    except Exception as e:
+      fail('constraint-raises', 'evaluating the tree constraints on another memory layout of the flow "%s" raised %s: %s' % (pname0, type(e).__name__, str(e)[:160]))
       return fails
     # ---- each re-wrapped Jacobian is the gradient of the re-wrapped function: directional finite differences of `fun`
     # at the permutation flow (all entries >= 1: away from the kinks at zero), then per cell to name the wrong entries
